@@ -267,7 +267,13 @@ func init() {
 				if minify {
 					e.stat("js:minify")
 				}
-				e.emit(fmt.Sprintf("numprint\tjs\t%d\t%d\t%s", m, math.Float64bits(v), hexBytes([]byte(text))), exp)
+				wopt := ""
+				if minify {
+					wopt = "mw"
+				}
+				// end-to-end witness: the printed literal must evaluate to the same float64 (text is the shortest round-trip form)
+				e.emitW(fmt.Sprintf("numprint\tjs\t%d\t%d\t%s", m, math.Float64bits(v), hexBytes([]byte(text))), exp, "c01-prog",
+					map[string]string{"source": fmt.Sprintf("\"use strict\";\nconst k1 = %s;\np(1, k1, 1 / k1, k1 === %s);\nconst k2 = [%s.toString, -%s];\np(2, k2[1]);\n", text, text, text, text), "opt_name": wopt})
 			case 6: // smallIntToBytes
 				n := r.Intn(801) - 400
 				if r.Chance(1, 3) {
